@@ -228,3 +228,28 @@ Example ex_assign_needs_wf :
     process_posting b 0 0 (P 11 None None None (Some (VAmt (D 0 0) (Some 3)))) = Ok (b', ep, ev) /\
     Qc_eq_bool (a_get (bal_get b' 11) 3) (D 2 0) = true.
 Proof. vm_compute. do 3 eexists. split; reflexivity. Qed.
+
+(* C03 end-of-transaction form: an assigned account named by no other posting ends at X *)
+Example ex_assign_final_hyp :
+  forall j pj, j <> 0%nat -> nth_error (t_posts t_assign) j = Some pj -> p_account pj <> 11.
+Proof. intros [|[|[|j]]] pj Hj H; cbn in H; try congruence; injection H as <-; discriminate. Qed.
+
+(* known finding C03-K1 in the model: `A / A = 5 USD / B 3 USD` from the empty state is
+   accepted and leaves A at -3 USD, not 5 USD: the exclusivity hypothesis of
+   assign_single_final cannot be dropped *)
+Definition t_k1 : txn :=
+  T [P 10 None None None None; P 10 None None None (Some (VAmt (D 5 0) (Some 1)));
+     P 11 (amt 3 0 1) None None None].
+
+Lemma k1_witness :
+  exists t s' p bc c v,
+    add_transaction bstate0 t = Ok s' /\ bal_wf (s_bal bstate0) /\
+    nth_error (t_posts t) 1 = Some p /\ assignment p bc /\ eval_pa bc = Ok (PSingle c v) /\
+    a_get (bal_get (s_bal s') (p_account p)) c <> v.
+Proof.
+  assert (exists s', add_transaction bstate0 t_k1 = Ok s') as [s' H'] by loop_ok.
+  exists t_k1, s', (P 10 None None None (Some (VAmt (D 5 0) (Some 1)))), (VAmt (D 5 0) (Some 1)), 1, (D 5 0).
+  split; [exact H'|]. split; [apply bal_wf_nil|]. split; [reflexivity|]. split; [split; reflexivity|].
+  split; [reflexivity|].
+  vm_compute in H'. injection H' as <-. intros E. apply (f_equal this) in E. vm_compute in E. discriminate.
+Qed.
